@@ -84,7 +84,7 @@ Proof.
   pose proof (calls_ext _ _ _ _ _ _ parse_in_all (translated_parsed_attributes d attrs)) as Hp.
   unfold desc_of. fold (parse attrs) in Hp. revert Hp. generalize (parse attrs). intros s Hp.
   destruct s as [c e ms m ov' va ma f dt pl dg]. cbn [s_msg s_vattrs].
-  destruct m as [[ty v]|];
+  destruct m as [[[ty rs] v]|];
     (eapply calls_intro with (c := CVal _); try reflexivity;
      simpl fn_body; cbn [app combine fn_params];
      eapply ev_block; [|reflexivity];
@@ -94,6 +94,8 @@ Qed.
 
 (* ---- as_variants: the descriptions of the methods of the item, in order; other items are skipped ---- *)
 Inductive item := IMethod (attrs : list ain) (sg other : value) | IOther (v : value).
+(* a method whose signature is made of its name, its return type and the rest *)
+Definition imethod (attrs : list ain) (ident output sig_other other : value) : item := IMethod attrs (sig_v ident output sig_other) other.
 Definition item_v (kind : string) (i : item) : value :=
   match i with
   | IMethod attrs sg other => VCon (kind ++ "::Fn") [VRec "Method" [("attrs", VArr (map ain_v attrs)); ("sig", sg); ("other", other)]]
@@ -183,30 +185,59 @@ Qed.
 
 (* ---- composition: from the items of the impl block / trait to the variants of one kind ---- *)
 (* the kind a method is a message of: the kind of its FIRST well-formed `sv::msg(..)` attribute *)
-Definition method_kind (attrs : list ain) : option string := option_map fst (hd_error (flat_map msg_of attrs)).
+Definition method_kind (attrs : list ain) : option string := option_map (fun m => fst (fst m)) (hd_error (flat_map msg_of attrs)).
 
 Lemma of_kind_desc ty attrs sg : of_kind ty (desc_of attrs sg) = match method_kind attrs with Some k => k =? ty | None => false end.
 Proof.
   unfold of_kind, desc_of, method_kind, parse. cbn [d_msg]. rewrite parsed_msg_is_the_first.
-  destruct (hd_error (flat_map msg_of attrs)) as [[k v]|]; reflexivity.
+  destruct (hd_error (flat_map msg_of attrs)) as [[[k rs] v]|]; reflexivity.
+Qed.
+
+(* well-formed items: every method's signature has the shape name / return type / rest, and every attribute names its response
+   type (when it is a `sv::msg`) as an Option *)
+Definition wf_item (i : item) : Prop :=
+  match i with
+  | IMethod attrs sg _ => (exists ident output so, sg = sig_v ident output so) /\ Forall (fun a => is_option (a_resp a)) attrs
+  | IOther _ => True
+  end.
+
+Lemma wf_desc_of attrs sg : (exists ident output so, sg = sig_v ident output so) -> Forall (fun a => is_option (a_resp a)) attrs ->
+  wf_desc (desc_of attrs sg).
+Proof.
+  intros Hs Ha. split; [exact Hs|]. unfold desc_of, parse. cbn [d_msg]. rewrite parsed_msg_is_the_first.
+  destruct (hd_error (flat_map msg_of attrs)) as [[[k rs] v]|] eqn:Hh; [|exact I].
+  assert (Hin : In (k, rs, v) (flat_map msg_of attrs)).
+  { destruct (flat_map msg_of attrs) as [|y l]; [discriminate|]. injection Hh as ->. left. reflexivity. }
+  apply in_flat_map in Hin. destruct Hin as (a & Hia & Hm). rewrite Forall_forall in Ha. specialize (Ha a Hia).
+  unfold msg_of in Hm. destruct (classify (a_path a)) as [[]|]; cbn in Hm; try contradiction.
+  destruct (a_content a) as [e0|[] v0]; cbn in Hm; try contradiction.
+  destruct Hm as [Hm|[]]. injection Hm as _ <- _. exact Ha.
+Qed.
+
+Lemma wf_descs_of items : Forall wf_item items -> Forall wf_desc (descs_of items).
+Proof.
+  intros H. induction H as [|i items Hi _ IH]; [constructor|].
+  change (descs_of (i :: items)) with ((match i with IMethod attrs sg _ => [desc_of attrs sg] | IOther _ => [] end) ++ descs_of items).
+  apply Forall_app. split; [|exact IH]. destruct i as [attrs sg o|v]; [|constructor].
+  constructor; [|constructor]. destruct Hi as [Hs Ha]. apply wf_desc_of; assumption.
 Qed.
 
 Theorem translated_variants_of_an_item d (items : list item) other ty gens wc kind :
-  kind = "ImplItem" \/ kind = "TraitItem" ->
+  kind = "ImplItem" \/ kind = "TraitItem" -> Forall wf_item items ->
   let ds := descs_of items in
   let sel := filter (of_kind ty) ds in
-  let used := map traversed sel in
+  let used := flat_map traversed sel in
   calls ALL (S (S (S (S (S d))))) (if kind =? "ImplItem" then "ItemImpl::as_variants" else "ItemTrait::as_variants")
         [block_v kind items other] (CVal (VArr (map desc_v ds))) /\
-  calls ALL (S (S (S d))) "MsgVariants::new" [VArr (map desc_v ds); kind_v ty; VArr gens; wc_v wc]
+  calls ALL (S (S (S (S d)))) "MsgVariants::new" [VArr (map desc_v ds); kind_v ty; VArr gens; wc_v wc]
     (CVal (VRec "MsgVariants"
        [("variants", VArr (map variant_of sel)); ("used_generics", VArr used);
         ("unused_generics", VArr (filter (fun g => negb (mem g used)) gens));
         ("where_predicates", VArr (kept_preds used wc)); ("msg_ty", kind_v ty)])).
 Proof.
-  intros Hk ds sel used. split.
+  intros Hk Hwf ds sel used. split.
   - destruct Hk as [-> | ->]; cbn; [apply translated_impl_as_variants | apply translated_trait_as_variants].
-  - apply (calls_ext _ _ _ _ _ _ gen_in_all). apply translated_msg_variants_new.
+  - apply (calls_ext _ _ _ _ _ _ gen_in_all). apply translated_msg_variants_new. apply wf_descs_of. exact Hwf.
 Qed.
 
 (* the selected descriptions, read off the items: one per method whose first well-formed `sv::msg` names the kind *)
